@@ -356,6 +356,7 @@ func checkC09(r *Run) {
 			}
 		}
 	}
+	c.ruleLoopOutlivesConnectCtx(r3)
 	// Disconnect ordering
 	if d := c.Method("reconnectClient", "Disconnect"); d != nil {
 		var closeDisc, rcDisc ssa.Instruction
